@@ -10,18 +10,38 @@ open Gen.Est
 
 /-! ### No-panic precondition (exact) -/
 
+theorem maxUserFreq_le_u32Max : maxUserFreq ≤ u32Max := by decide
+
+/-- the saturation is invisible behind the clamp: `MAX_USER_FREQ ≤ u32::MAX` -/
+theorem min_satAdd32 (a b : Nat) : min (satAdd32 a b) maxUserFreq = min (a + b) maxUserFreq := by
+  have := maxUserFreq_le_u32Max
+  unfold satAdd32; omega
+
+/-- a rising band panics only on `max_freq - orig_freq` -/
 theorem risingBand_isOk (div plus inc f o m : Nat) :
-    (risingBand div plus inc f o m).isOk = true ↔ (o ≤ m ∧ f + risingDelta div plus inc f o m ≤ u32Max) := by
+    (risingBand div plus inc f o m).isOk = true ↔ o ≤ m := by
   unfold risingBand
   by_cases h1 : m < o
   · rw [if_pos h1]
-    exact ⟨fun h => by simp [Outcome.isOk] at h, fun h => absurd h.1 (by omega)⟩
+    exact ⟨fun h => by simp [Outcome.isOk] at h, fun h => absurd h (by omega)⟩
   · rw [if_neg h1]
-    by_cases h2 : f + risingDelta div plus inc f o m > u32Max
-    · simp only [h2, if_true]
-      exact ⟨fun h => by simp [Outcome.isOk] at h, fun h => absurd h.2 (by omega)⟩
-    · simp only [h2, if_false]
-      exact ⟨fun _ => ⟨by omega, by omega⟩, fun _ => rfl⟩
+    exact ⟨fun _ => by omega, fun _ => rfl⟩
+
+/-- the value of a rising band, for ALL `u32` inputs that pass the subtraction: the clamped sum -/
+theorem risingBand_eq (div plus inc f o m : Nat) (h : o ≤ m) :
+    risingBand div plus inc f o m = .ok (min (f + risingDelta div plus inc f o m) maxUserFreq) := by
+  unfold risingBand
+  rw [if_neg (by omega)]
+  show Outcome.ok (min (satAdd32 f (risingDelta div plus inc f o m)) maxUserFreq) = _
+  rw [min_satAdd32]
+
+/-- whatever a rising band returns is within `MAX_USER_FREQ` — no hypothesis on the stored frequency -/
+theorem risingBand_le_max (div plus inc f o m v : Nat) (h : risingBand div plus inc f o m = .ok v) :
+    v ≤ maxUserFreq := by
+  simp only [risingBand] at h
+  split at h
+  · cases h
+  · injection h with h; omega
 
 theorem decayBand_isOk (f o : Nat) :
     (decayBand f o).isOk = true ↔ (o ≤ f ∧ max ((f - o) / longDiv) longDec ≤ f) := by
@@ -41,22 +61,16 @@ theorem decayBand_isOk (f o : Nat) :
 theorem estimate_isOk_iff (lt f : Nat) (lu : Option Nat) (o m : Nat) :
     (estimate lt f lu o m).isOk = true ↔ EstimatePre lt f lu o m := by
   simp only [estimate, EstimatePre]
-  by_cases h0 : lt < lu.getD lt
-  · rw [if_pos h0]
-    exact ⟨fun h => by simp [Outcome.isOk] at h, fun h => absurd h.1 (by omega)⟩
-  · rw [if_neg h0]
-    by_cases h1 : lt - lu.getD lt < shortBand
-    · rw [if_pos h1, risingBand_isOk]
-      exact ⟨fun h => ⟨by omega, fun _ => h, fun h2 _ => absurd h1 (by omega), fun h2 _ => absurd h1 (by omega)⟩,
-        fun h => h.2.1 h1⟩
-    · rw [if_neg h1]
-      by_cases h2 : lt - lu.getD lt < mediumBand
-      · rw [if_pos h2, risingBand_isOk]
-        exact ⟨fun h => ⟨by omega, fun h3 => absurd h3 h1, fun _ _ => h, fun _ h3 => absurd h2 (by omega)⟩,
-          fun h => h.2.2.1 (by omega) h2⟩
-      · rw [if_neg h2, decayBand_isOk]
-        exact ⟨fun h => ⟨by omega, fun h3 => absurd h3 h1, fun _ h3 => absurd h3 h2, fun _ _ => h⟩,
-          fun h => h.2.2.2 (by omega) (by omega)⟩
+  by_cases h1 : satSub lt (lu.getD lt) < shortBand
+  · rw [if_pos h1, risingBand_isOk]
+    exact ⟨fun h => ⟨fun _ => h, fun h2 _ => absurd h1 (by omega)⟩, fun h => h.1 (Or.inl h1)⟩
+  · rw [if_neg h1]
+    by_cases h2 : satSub lt (lu.getD lt) < mediumBand
+    · rw [if_pos h2, risingBand_isOk]
+      exact ⟨fun h => ⟨fun _ => h, fun _ h3 => absurd h2 (by omega)⟩, fun h => h.1 (Or.inr h2)⟩
+    · rw [if_neg h2, decayBand_isOk]
+      exact ⟨fun h => ⟨fun h3 => h3.elim (fun h4 => absurd h4 h1) (fun h4 => absurd h4 h2), fun _ _ => h⟩,
+        fun h => h.2 (by omega) (by omega)⟩
 
 /-! ### The editor path: `learn_phrase` passes a phrase without timestamp and `orig_freq = phrase.freq()` -/
 
@@ -65,23 +79,25 @@ def stepFreq (f mx : Nat) : Nat := min (f + risingDelta shortDiv shortPlus short
 
 theorem estimate_no_timestamp (lt f o m : Nat) :
     estimate lt f none o m = risingBand shortDiv shortPlus shortInc f o m := by
-  simp [estimate, shortBand]
+  simp [estimate, satSub, shortBand]
+
+/-- a stored time in the future counts as "just used" (`saturating_sub`): the short band -/
+theorem estimate_future_timestamp (lt f t o m : Nat) (h : lt ≤ t) :
+    estimate lt f (some t) o m = risingBand shortDiv shortPlus shortInc f o m := by
+  have : lt - t = 0 := by omega
+  simp [estimate, satSub, shortBand, this]
 
 theorem risingDelta_le (f mx : Nat) (h : f ≤ mx) :
     f + risingDelta shortDiv shortPlus shortInc f f mx ≤ mx + shortInc := by
   simp only [risingDelta, shortDiv, shortPlus, shortInc]
   split <;> omega
 
-/-- on the editor path `estimate` cannot panic as long as the best homophone frequency leaves `shortInc` head
-    room below `u32::MAX` -/
-theorem estimate_editor (lt f mx : Nat) (h : f ≤ mx) (hb : mx + shortInc ≤ u32Max) :
+/-- on the editor path `estimate` cannot panic and returns the clamped sum — for every `u32` frequency (before the
+    repair of F40 this needed `mx + shortInc ≤ u32::MAX`) -/
+theorem estimate_editor (lt f mx : Nat) (h : f ≤ mx) :
     estimate lt f none f mx = .ok (stepFreq f mx) := by
-  have := risingDelta_le f mx h
-  rw [estimate_no_timestamp]
-  unfold risingBand stepFreq
-  have h1 : ¬ mx < f := by omega
-  have h2 : ¬ f + risingDelta shortDiv shortPlus shortInc f f mx > u32Max := by omega
-  simp [h1, h2]
+  rw [estimate_no_timestamp, risingBand_eq _ _ _ _ _ _ h]
+  rfl
 
 theorem stepFreq_ge (f mx : Nat) (hf : f ≤ maxUserFreq) : f ≤ stepFreq f mx := by
   unfold stepFreq; omega
@@ -99,12 +115,11 @@ theorem stepFreq_le_max (f mx : Nat) : stepFreq f mx ≤ maxUserFreq := by
 /-- in the two rising bands the bare function never lowers a frequency that is within `MAX_USER_FREQ` -/
 theorem risingBand_ge (div plus inc f o m v : Nat) (hf : f ≤ maxUserFreq)
     (h : risingBand div plus inc f o m = .ok v) : f ≤ v := by
-  simp only [risingBand] at h
+  have hm := maxUserFreq_le_u32Max
+  simp only [risingBand, satAdd32] at h
   split at h
   · cases h
-  · split at h
-    · cases h
-    · injection h with h; omega
+  · injection h with h; omega
 
 /-! ### Bounded liveness: the gap closes -/
 
